@@ -108,14 +108,22 @@ class Tmatrix(ScatteringTheory):
         eps = rxy/rz
         NP = -1 - int(iscyl)
         ndgs = 5
-        alpha = scatterer.rotation[2] * 180 / np.pi
-        beta = scatterer.rotation[1] * 180 / np.pi
+        # ampld needs 0 <= alpha <= 360 and 0 <= beta <= 180 degrees and
+        # stops the interpreter otherwise. Only the direction of the
+        # symmetry axis matters, so bring the angles into that range.
+        azimuthal = scatterer.rotation[2]
+        polar = scatterer.rotation[1] % (2 * np.pi)
+        if polar > np.pi:
+            polar = 2 * np.pi - polar
+            azimuthal = azimuthal + np.pi
+        alpha = (azimuthal % (2 * np.pi)) * 180 / np.pi
+        beta = polar * 180 / np.pi
 
         # FIXME: Why does the incident polarization have to be set to  (1, 0)?
         thet0 = 0
         thet = angles[:, 0]
         phi0 = 0
-        phi = angles[:, 1]
+        phi = angles[:, 1] % 360
         nang = angles.shape[0]
 
         args = [axi, rat, lam, mrr, mri, eps, NP, ndgs, alpha, beta,
